@@ -716,6 +716,12 @@ class Unit:
             self.results.append({'unit': self.name, 'label': label, 'status': 'unsupported',
                                  'reason': f'{e} (line {e.line})'})
             return None
+        except (z3.Z3Exception, TypeError, AttributeError, KeyError, IndexError, ValueError, AssertionError) as e:
+            # the interpreter met code it cannot model (typically a mutated / refactored body): undecided, never a violation
+            tb = traceback.format_exc().strip().splitlines()
+            self.results.append({'unit': self.name, 'label': label, 'status': 'unsupported',
+                                 'reason': f'engine exception {type(e).__name__}: {e} [{tb[-3].strip() if len(tb) >= 3 else ""}]'})
+            return None
         self._collect(label, paths, time.time() - t0, info)
         self.results[-1]['replay'] = replay
         return paths
